@@ -265,7 +265,7 @@ func main() {
 		tag  string
 	}{{root, rootInfo, ""}, {st, stInfo, "stanza/"}}, map[string]bool{"Client.Send": true, "Client.SendRaw": true, "resendStz": true,
 		"Client.Connect": true, "Client.Resume": true, "Client.connect": true, "Component.Resume": true, "Component.Connect": true,
-		"XMPPTransport.StartTLS": true, "XMPPTransport.Connect": true, "Component.Send": true, "Component.SendRaw": true, "iqNotImplemented": true, "NewSession": true, "Client.recv": true, "Component.recv": true, "keepalive": true, "Client.Disconnect": true, "Component.Disconnect": true, "StreamManager.Stop": true, "StreamManager.connect": true}); err != nil {
+		"XMPPTransport.StartTLS": true, "XMPPTransport.Connect": true, "Component.Send": true, "Component.SendRaw": true, "iqNotImplemented": true, "NewClient": true, "NewComponent": true, "NewSession": true, "Client.recv": true, "Component.recv": true, "keepalive": true, "Client.Disconnect": true, "Component.Disconnect": true, "StreamManager.Stop": true, "StreamManager.connect": true}); err != nil {
 		fmt.Fprintln(os.Stderr, err)
 		ok = false
 	}
